@@ -158,7 +158,7 @@ def effects(prog):
     direct = {}; calls = {}
     def walk(n, p, locals_):
         k = n[0]
-        if k == 'syscall': direct[p] = True
+        if k in ('syscall', 'stop'): direct[p] = True          # stop ends the program: an effect whose position in the evaluation order is observable
         if k == 'call':
             if n[1] in vals or n[1] not in procs: direct[p] = True      # syscall through a val name / unknown
             else: calls[p].add(n[1])
